@@ -66,39 +66,94 @@ Theorem C20_one_line_per_event : forall p e out,
 Proof. exact one_line_per_event. Qed.
 Print Assumptions C20_one_line_per_event.
 
-(* ---- the unchanged code violates the property here ---- *)
+(* ---- hostport never panics, for EVERY address: with a ':' it splits at the last one
+   (the port contains none), without one the host is the whole string ---- *)
+Theorem C20_hostport_total : forall s : str,
+  exists h p, hostport s = Ok (h, p) /\
+    (has_colon s = true -> s = h ++ [58] ++ p /\ has_colon p = false) /\
+    (has_colon s = false -> h = s /\ p = []).
+Proof. exact hostport_total. Qed.
+Print Assumptions C20_hostport_total.
+
+(* ---- Logger.Log never panics: any format, any addresses (with or without port), any
+   zone, any headers; [event_ok] only says the numbers are ones time.Time / net/http can
+   produce (instant representable by UnixNano, a Response present) ---- *)
+Theorem C20_log_never_panics : forall p e, event_ok e = true -> exists out, pattern_write p e = Ok out.
+Proof. exact log_never_panics. Qed.
+Print Assumptions C20_log_never_panics.
+
+Theorem C20_log_line_never_panics : forall format e, event_ok e = true ->
+  (exists out, log_line format e = Ok out) \/ log_line format e = Err 1 \/ log_line format e = Err 2.
+Proof. exact log_line_never_panics. Qed.
+Print Assumptions C20_log_line_never_panics.
+
+Theorem C20_log_never_panics_nonvacuous :
+  event_ok (ex_event (bs "backend") 10800) = true /\
+  log_line (bs "$upstream_host:$upstream_port [$time_common]") (ex_event (bs "backend") 10800)
+  = Ok (bs "backend: [21/Sep/2026:14:13:20 +0000]" ++ [10]).
+Proof. exact log_never_panics_nonvacuous. Qed.
+Print Assumptions C20_log_never_panics_nonvacuous.
+
+(* ---- time in UTC, for events in ANY zone: the line does not depend on the zone of
+   End, and the civil fields are the canonical decimal renderings of the calendar
+   fields of the instant itself, in the RFC 3339 / common-log layout ---- *)
+Theorem C20_log_zone_independent : forall format e off,
+  log_line format (in_zone e off) = log_line format e.
+Proof. exact log_zone_independent. Qed.
+Print Assumptions C20_log_zone_independent.
+
+Theorem C20_time_rfc3339_is_utc : forall e, event_ok e = true ->
+  let c := civil_of (e_unix e) in
+  exists Y M D h m s,
+    is_dec 4 (c_year c) Y = true /\ is_dec 2 (c_month c) M = true /\ is_dec 2 (c_day c) D = true /\
+    is_dec 2 (c_hour c) h = true /\ is_dec 2 (c_min c) m = true /\ is_dec 2 (c_sec c) s = true /\
+    render_field FTimeRfc e =
+      Ok (Y ++ [45] ++ M ++ [45] ++ D ++ [84] ++ h ++ [58] ++ m ++ [58] ++ s ++ [90]).
+Proof. exact time_rfc3339_is_utc. Qed.
+Print Assumptions C20_time_rfc3339_is_utc.
+
+Theorem C20_time_common_is_utc : forall e, event_ok e = true ->
+  let c := civil_of (e_unix e) in
+  exists Y Mn D h m s,
+    is_dec 4 (c_year c) Y = true /\ nth_error short_month_names (Z.to_nat (c_month c)) = Some Mn /\
+    (1 <= c_month c <= 12)%Z /\ is_dec 2 (c_day c) D = true /\
+    is_dec 2 (c_hour c) h = true /\ is_dec 2 (c_min c) m = true /\ is_dec 2 (c_sec c) s = true /\
+    render_field FTimeCommon e =
+      Ok (D ++ [47] ++ Mn ++ [47] ++ Y ++ [58] ++ h ++ [58] ++ m ++ [58] ++ s ++ [32;43;48;48;48;48]).
+Proof. exact time_common_is_utc. Qed.
+Print Assumptions C20_time_common_is_utc.
+
+(* ---- the two defects the code had, REPAIRED in /repo (bb1b4e7, 1da7601): the theorems
+   are about the [_unrepaired] definitions kept in Model/Logger.v and also state what
+   the repaired code does on the same witness ---- *)
 Theorem C20_upstream_no_port_panics_refuted :
   exists format e, (exists p, new_logger format = Ok p) /\ e_upaddr e = bs "backend" /\
-                   log_line format e = Panic.
+                   log_line_unrepaired format e = Panic /\
+                   log_line format e = Ok (bs "10.0.0.7:51234 backend" ++ [10]).
 Proof. exact upstream_no_port_panics_refuted. Qed.
 Print Assumptions C20_upstream_no_port_panics_refuted.
 
 Theorem C20_local_time_labelled_utc_refuted :
   exists format e1 e2,
     e_unix e1 = e_unix e2 /\ e_nsec e1 = e_nsec e2 /\ e_off e1 = 10800%Z /\ e_off e2 = 0%Z /\
-    log_line format e1 = Ok (bs "2026-09-21T17:13:20Z [21/Sep/2026:17:13:20 +0000]" ++ [10]) /\
-    log_line format e2 = Ok (bs "2026-09-21T14:13:20Z [21/Sep/2026:14:13:20 +0000]" ++ [10]).
+    log_line_unrepaired format e1 = Ok (bs "2026-09-21T17:13:20Z [21/Sep/2026:17:13:20 +0000]" ++ [10]) /\
+    log_line_unrepaired format e2 = Ok (bs "2026-09-21T14:13:20Z [21/Sep/2026:14:13:20 +0000]" ++ [10]) /\
+    log_line format e1 = log_line format e2 /\
+    log_line format e1 = Ok (bs "2026-09-21T14:13:20Z [21/Sep/2026:14:13:20 +0000]" ++ [10]).
 Proof. exact local_time_labelled_utc_refuted. Qed.
 Print Assumptions C20_local_time_labelled_utc_refuted.
 
+(* ---- still open (F-C20-3) ---- *)
 Theorem C20_ipv6_brackets_kept_refuted :
   hostport (bs "[::1]:8080") = Ok (bs "[::1]", bs "8080").
 Proof. exact ipv6_brackets_kept_refuted. Qed.
 Print Assumptions C20_ipv6_brackets_kept_refuted.
 
-(* ---- outside region 1: an empty address or one with a ':' never panics, and the
-   result is the split at the last ':' (the port contains none) ---- *)
-Theorem C20_hostport_on_domain : forall s : str, addr_ok s = true ->
-  exists h p, hostport s = Ok (h, p) /\
-              (s <> [] -> s = h ++ [58] ++ p /\ has_colon p = false).
-Proof. exact hostport_on_domain. Qed.
-Print Assumptions C20_hostport_on_domain.
-
-(* non-vacuity: concrete inputs meet the hypotheses *)
-Theorem C20_hostport_on_domain_nonvacuous :
-  addr_ok (bs "10.0.0.7:8080") = true /\ hostport (bs "10.0.0.7:8080") = Ok (bs "10.0.0.7", bs "8080").
-Proof. exact hostport_on_domain_nonvacuous. Qed.
-Print Assumptions C20_hostport_on_domain_nonvacuous.
+Theorem C20_hostport_examples :
+  hostport (bs "10.0.0.7:8080") = Ok (bs "10.0.0.7", bs "8080") /\
+  hostport (bs "backend") = Ok (bs "backend", []) /\ hostport_unrepaired (bs "backend") = Panic.
+Proof. exact hostport_examples. Qed.
+Print Assumptions C20_hostport_examples.
 
 Theorem C20_atoi_spec_nonvacuous :
   int64_ok (-42) = true /\ atoi (-42) 4 = Ok (bs "-0042") /\ is_dec 4 (-42) (bs "-0042") = true.
